@@ -1456,3 +1456,7 @@ mod tests {
         assert_eq!(distance, [255u8; 32]);
     }
 }
+
+#[cfg(kani)]
+#[path = "/verif/kani/core_engine_proofs.rs"]
+mod verif_proofs;
